@@ -78,8 +78,33 @@ type outcome struct {
 }
 
 // replayOnce forces the schedule of b on a fresh real cache, then lets the operations finish freely.
+// closeDeadlinePlan: does the schedule let the deadline of a cache Close expire (a "Cancel" step of
+// a Close operation)? Then the run uses an already expired deadline - unless that Close is woken by
+// a close channel before the deadline step (with an expired deadline that select would be a coin
+// toss): such a schedule is cut just before the deadline step.
+func closeDeadlinePlan(b behaviour) (expired bool, steps []stepSpec) {
+	for k, st := range b.Steps {
+		if st.Pc != "Cancel" || st.O < 1 || st.O > len(b.Ops) || b.Ops[st.O-1].Kind != "Close" {
+			continue
+		}
+		for _, p := range b.Steps[:k] {
+			if p.O == st.O && p.Pc == "RSCw" {
+				return false, b.Steps[:k]
+			}
+		}
+		return true, b.Steps
+	}
+	return false, b.Steps
+}
+
 func replayOnce(b behaviour, seed int64) (res outcome) {
-	r := newRun(seed)
+	expired, steps := closeDeadlinePlan(b)
+	b.Steps = steps
+	dl := closeDeadlineNever
+	if expired {
+		dl = closeDeadlineExpired
+	}
+	r := newRunDeadline(seed, dl)
 	r.loadOutcomes = []string{"val", "err"}
 	r.tryVerdicts = []string{"yes", "no"}
 	for _, id := range b.Pre {
@@ -110,6 +135,42 @@ func replayOnce(b behaviour, seed int64) (res outcome) {
 	consumedCtx := map[int]bool{}
 	var stuck []*opCtx
 	drift := func(f string, a ...any) { res.drift = fmt.Sprintf(f, a...) }
+	// takeCtx: op is parked at a wait whose channel is not ready and its context is done (cancelled,
+	// or the expired deadline of a cache Close): it leaves the wait through the context now - that
+	// step has no effect on shared state, so taking it early commutes with the steps in between,
+	// whereas later the channel might be ready as well and the select a coin toss. A cache Close
+	// goes on to its next entry and may arrive at another such wait: repeat.
+	takeCtx := func(k int, op *opCtx) bool {
+		for !op.returned && waitGates[op.parkPoint] {
+			nxt := -1
+			for j := k + 1; j < len(b.Steps); j++ {
+				if b.Steps[j].O == op.idx && !consumedCtx[j] {
+					nxt = j
+					break
+				}
+			}
+			if nxt < 0 || !(b.Steps[nxt].R == "ErrCtx" || b.Steps[nxt].C == "ctx") {
+				return true
+			}
+			want := b.Steps[nxt]
+			op.parkPoint = ""
+			op.release <- ""
+			returned, hung := r.await(op)
+			if hung {
+				stuck = []*opCtx{op}
+				return false
+			}
+			if returned != (want.R != "") || (returned && op.res != want.R) {
+				drift("step %d: %s(%s) left its wait through the context: returned=%v res=%s, spec result %q", nxt, op.kind, op.id, returned, op.res, want.R)
+				return false
+			}
+			consumedCtx[nxt] = true
+			if op.kind != "Close" || op.parkPoint != "gate:setclosing.wait" {
+				return true
+			}
+		}
+		return true
+	}
 steps:
 	for k, st := range b.Steps {
 		if st.O < 1 || st.O > len(r.ops) {
@@ -130,8 +191,11 @@ steps:
 			continue
 		}
 		if st.Pc == "Cancel" {
-			op.cancel()
-			if !op.returned && waitGates[op.parkPoint] {
+			if op.kind != "Close" {
+				op.cancel()
+			} // (the deadline of a cache Close is already expired in this run)
+			op.ctxDone = true
+			if !op.returned && !op.inSelect && waitGates[op.parkPoint] {
 				// blocked in the model: the wake-up by the context has no effect on shared state, so it
 				// is taken right away (it would otherwise race with the channel becoming ready)
 				nxt := -1
@@ -141,19 +205,18 @@ steps:
 						break
 					}
 				}
-				if nxt >= 0 && b.Steps[nxt].R == "ErrCtx" {
+				switch {
+				case nxt >= 0 && (b.Steps[nxt].R == "ErrCtx" || b.Steps[nxt].C == "ctx"):
+					if !takeCtx(k, op) {
+						break steps
+					}
+				case op.kind == "Close" && expired:
+					// the model says Close does not look at its deadline here (it waits for a load without
+					// bound): let the real Close block in that wait for real, with the deadline expired,
+					// and go on with the schedule; it comes back by itself when the load has finished
 					op.parkPoint = ""
+					op.inSelect = true
 					op.release <- ""
-					returned, hung := r.await(op)
-					if hung {
-						stuck = []*opCtx{op}
-						break steps
-					}
-					if !returned || op.res != "ErrCtx" {
-						drift("step %d: %s(%s) cancelled while blocked: returned=%v res=%s, spec ErrCtx", k, op.kind, op.id, returned, op.res)
-						break steps
-					}
-					consumedCtx[nxt] = true
 				}
 			}
 			continue
@@ -170,17 +233,21 @@ steps:
 			drift("step %d: unknown control point %s", k, st.Pc)
 			break
 		}
-		if op.returned {
+		if op.returned && !op.inSelect {
 			drift("step %d: spec steps %s(%s) at %s but the real operation has returned %s", k, op.kind, op.id, st.Pc, op.res)
 			break
 		}
-		if op.parkPoint != want {
+		if !op.inSelect && op.parkPoint != want {
 			drift("step %d: spec has %s(%s) at %s (%s) but the real goroutine waits at %s", k, op.kind, op.id, st.Pc, want, op.parkPoint)
 			break
 		}
 		mark := len(r.snapshot())
-		op.parkPoint = ""
-		op.release <- st.C
+		if op.inSelect {
+			op.inSelect = false // it is inside this wait already and wakes up by itself
+		} else {
+			op.parkPoint = ""
+			op.release <- st.C
+		}
 		returned, hung := r.await(op)
 		if hung {
 			// the model takes this step, the code does not come back from it
@@ -198,6 +265,13 @@ steps:
 				res.mapOrder = true
 				break
 			}
+		}
+		if op.ctxDone && op.kind == "Close" && !returned && op.parkPoint == "gate:setclosing.wait" && st.Pc != "*" {
+			// arrived at a busy entry with the deadline already expired
+			if !takeCtx(k, op) {
+				break steps
+			}
+			continue
 		}
 		switch {
 		case st.Pc == "*":
@@ -284,7 +358,7 @@ func TestReplay(t *testing.T) {
 	for i, b := range bs {
 		for rpt := 0; rpt < repeat; rpt++ {
 			var out outcome
-			for try := 0; try < 200; try++ {
+			for try := 0; try < 800; try++ {
 				out = replayOnce(b, seed+int64(i)*31+int64(try))
 				if !out.mapOrder {
 					break
@@ -293,6 +367,10 @@ func TestReplay(t *testing.T) {
 			}
 			if out.mapOrder {
 				skipped++
+				if skipped <= 3 {
+					bts, _ := json.Marshal(b)
+					t.Logf("map order never matched: %s", bts)
+				}
 				continue
 			}
 			rep.Case(b.config())
